@@ -224,6 +224,8 @@ pub struct Case {
     pub attr_sig: Vec<(String, String)>,
     pub inputs: Vec<Option<Inp>>,
     pub n_out: usize,
+    /// Output slots left unconnected (empty ONNX output name).
+    pub skip_outs: Vec<usize>,
 }
 
 impl Case {
@@ -236,7 +238,15 @@ impl Case {
             attr_sig: vec![],
             inputs,
             n_out: 1,
+            skip_outs: vec![],
         }
+    }
+    pub fn used(&self, j: usize) -> bool {
+        !self.skip_outs.contains(&j)
+    }
+    /// `1` / `0` per output slot.
+    pub fn mask_text(&self) -> String {
+        (0..self.n_out).map(|j| if self.used(j) { '1' } else { '0' }).collect()
     }
     pub fn key(mut self, k: &str) -> Case {
         self.key = k.into();
@@ -300,7 +310,8 @@ impl Case {
             .enumerate()
             .map(|(i, inp)| if inp.is_some() { format!("i{i}") } else { String::new() })
             .collect();
-        let out_names: Vec<String> = (0..self.n_out).map(|i| format!("o{i}")).collect();
+        let out_names: Vec<String> =
+            (0..self.n_out).map(|i| if self.used(i) { format!("o{i}") } else { String::new() }).collect();
         let mut node = Node::new(
             &self.op_type,
             "op",
@@ -327,7 +338,7 @@ impl Case {
         let g = Graph {
             nodes: vec![node],
             inputs,
-            outputs: out_names.iter().map(|n| ValueInfo::new(n, 0, None)).collect(),
+            outputs: out_names.iter().filter(|n| !n.is_empty()).map(|n| ValueInfo::new(n, 0, None)).collect(),
             ..Default::default()
         };
         encode_model(&g)
@@ -403,7 +414,7 @@ pub fn load_case(case: &Case) -> Result<Loaded, String> {
     Ok(Loaded { model, op_name, max_inputs, rules, labels, has_infer_shapes: has_is })
 }
 
-/// Execute the loaded single-op model on the case's inputs; returns the outputs `o0..`.
+/// Execute the loaded single-op model on the case's inputs; returns the *connected* outputs in slot order.
 pub fn run_case(l: &Loaded, case: &Case) -> Result<Vec<Value>, String> {
     let mut ins = vec![];
     for (i, inp) in case.inputs.iter().enumerate() {
@@ -413,6 +424,7 @@ pub fn run_case(l: &Loaded, case: &Case) -> Result<Vec<Value>, String> {
         }
     }
     let outs: Vec<_> = (0..case.n_out)
+        .filter(|&i| case.used(i))
         .map(|i| l.model.node_id(&format!("o{i}")).map_err(|e| format!("{e}")))
         .collect::<Result<_, _>>()?;
     l.model.run(ins, &outs, None).map_err(|e| format!("{e}").replace(['\n', '\t'], " "))
